@@ -267,3 +267,13 @@ def ofList (l : List α) : Set α := l.foldl (fun acc x => add acc x) empty
 end Set
 
 end PyRt
+
+namespace PyRt
+
+/-- `l.pop()` with its value: (the last item, the list without it), `IndexError` when empty -/
+def popLast? {α : Type} (l : List α) : Except PyExc (α × List α) :=
+  match l.getLast? with
+  | some x => .ok (x, l.dropLast)
+  | none => .error PyExc.IndexError
+
+end PyRt
